@@ -157,22 +157,15 @@ class Solver(object):
                 e = e + cv * m
         return e
 
-    def _nonzero_facts(self, conds):
-        """Base ids entailed non-zero by the assumptions (syntactically:
-        0 < t, t < 0, not (t <= 0), not (0 <= t), not (t == 0)); exp(.)
-        and pi are always non-zero."""
-        nz = set()
-        for rounds in range(2):
-            cn = Canon(nz)
-            for c in conds:
-                for t in _nonzero_terms(c):
-                    nz |= cn.nonzero_bases(t)
-        return nz
-
-    def _positive_facts(self, conds, nz):
-        pos = set()
-        for rounds in range(2):
+    def _facts(self, conds):
+        """(nz, pos): interned bases entailed non-zero / positive by the
+        assumptions (syntactically: 0 < t, t < 0, not (t <= 0), not (0 <= t),
+        not (t == 0)); computed to a fixpoint because recognising log / sqrt
+        structure needs the positivity facts and vice versa."""
+        nz, pos = set(), set()
+        for rounds in range(3):
             cn = Canon(nz, positive=pos)
+            n0 = (len(nz), len(pos))
             for c in conds:
                 t = None
                 if c.op == '<' and c.args[0] is T.ZERO:
@@ -184,11 +177,21 @@ class Solver(object):
                     b = cn.positive_base(t)
                     if b is not None:
                         pos.add(b)
-        return pos
+                for t in _nonzero_terms(c):
+                    nz |= cn.nonzero_bases(t)
+            nz |= pos
+            if (len(nz), len(pos)) == n0:
+                break
+        return nz, pos
+
+    def _nonzero_facts(self, conds):
+        return self._facts(conds)[0]
+
+    def _positive_facts(self, conds, nz):
+        return self._facts(conds)[1]
 
     def _solve_linear(self, conds):
-        nz = self._nonzero_facts(conds[:-1])
-        pos = self._positive_facts(conds[:-1], nz)
+        nz, pos = self._facts(conds[:-1])
         first = Canon(nz, positive=pos)
         for c in conds:
             for u in T.subterms([c]):
@@ -204,9 +207,7 @@ class Solver(object):
             cn = self._canon
             a, b = goal.args[0].args
             d = cn.lin(a).plus(cn.lin(b), -1)
-            if d.coef or d.const != 0:
-                d = cn.clear_denominators(d)
-            if not d.coef and d.const == 0:
+            if cn.residual_is_zero(d):
                 self.stats.queries += 1
                 self.stats.linear_queries += 1
                 self.stats.unsat += 1
@@ -410,8 +411,7 @@ class Solver(object):
         ``env`` -- compared by the harness with the value of the original
         term to validate the canonicaliser on every proved obligation."""
         from .canon import eval_key, Unsupported
-        nz = self._nonzero_facts(conds)
-        pos = self._positive_facts(conds, nz)
+        nz, pos = self._facts(conds)
         first = Canon(nz, positive=pos)
         for t in terms:
             first.lin(t)
